@@ -8,6 +8,7 @@ import sys
 sys.path.insert(0, '.')
 from vlib import common
 print(common.build('wsrv', 'debug'))
+print(common.build('wsrv', 'release'))
 try:
     print(common.build('wsrv', 'debug', flavor='asan'))
 except common.BuildError as e:
